@@ -1,0 +1,79 @@
+//! Verification hook: run the expression code generator in isolation.
+use super::*;
+use crate::parse::expr::Expression;
+
+/// Description of one entry of the `scopes` list handed to the generator.
+pub struct VerifScope {
+    pub has_update_path_tree: bool,
+    /// 0 invalid, 1 var from data scope, 2 var not from data scope, 3 script, 4 inline script
+    pub lvalue: u8,
+}
+
+/// Pieces emitted for one expression (in order): hoisted statements, value, guard expression,
+/// template-data tree expression, model l-value path, script l-value path, general l-value path,
+/// flags `has_model_lvalue_path`, `has_script_lvalue_path`, `above_cond_expr`.
+pub fn proc_gen_expr(expr: &Expression, scopes: &[VerifScope]) -> Result<Vec<String>, TmplError> {
+    let mut w = JsTopScopeWriter::new(String::new());
+    let mut out = vec![];
+    w.function_scope(|w| {
+        let scopes: Vec<ScopeVar> = scopes
+            .iter()
+            .enumerate()
+            .map(|(i, s)| ScopeVar {
+                var: JsIdent::new(format!("s{}", i)),
+                update_path_tree: if s.has_update_path_tree {
+                    Some(JsIdent::new(format!("t{}", i)))
+                } else {
+                    None
+                },
+                lvalue_path: match s.lvalue {
+                    1 => ScopeVarLvaluePath::Var {
+                        var_name: JsIdent::new(format!("l{}", i)),
+                        from_data_scope: true,
+                    },
+                    2 => ScopeVarLvaluePath::Var {
+                        var_name: JsIdent::new(format!("l{}", i)),
+                        from_data_scope: false,
+                    },
+                    3 => ScopeVarLvaluePath::Script {
+                        abs_path: format!("p{}", i),
+                    },
+                    4 => ScopeVarLvaluePath::InlineScript {
+                        path: format!("p{}", i),
+                        mod_name: format!("m{}", i),
+                    },
+                    _ => ScopeVarLvaluePath::Invalid,
+                },
+            })
+            .collect();
+        let pg = expr.to_proc_gen_prepare(w, &scopes)?;
+        out.push(w.w.clone());
+        let mut piece = |w: &mut JsFunctionScopeWriter<String>,
+                         f: &dyn Fn(&mut JsExprWriter<String>) -> Result<(), TmplError>|
+         -> Result<String, TmplError> {
+            let mut s = String::new();
+            let mut ew = JsExprWriter {
+                w: &mut s,
+                block: if w.block.is_some() {
+                    Some(w.block.as_mut().unwrap())
+                } else {
+                    None
+                },
+                top_scope: &mut w.top_scope,
+            };
+            f(&mut ew)?;
+            Ok(s)
+        };
+        out.push(piece(w, &|w| pg.value_expr(w))?);
+        out.push(piece(w, &|w| pg.lvalue_state_expr(w, &scopes, false))?);
+        out.push(piece(w, &|w| pg.lvalue_state_expr(w, &scopes, true))?);
+        out.push(piece(w, &|w| pg.lvalue_path(w, &scopes, Some(true)))?);
+        out.push(piece(w, &|w| pg.lvalue_path(w, &scopes, Some(false)))?);
+        out.push(piece(w, &|w| pg.lvalue_path(w, &scopes, None))?);
+        out.push(pg.has_model_lvalue_path(&scopes).to_string());
+        out.push(pg.has_script_lvalue_path(&scopes).to_string());
+        out.push(pg.above_cond_expr().to_string());
+        Ok(())
+    })?;
+    Ok(out)
+}
